@@ -506,7 +506,7 @@ def h_metamorphic(ctx, selector, seed):
     X2, y2 = X.copy(), y.copy()
     which = qn[ctx.choose("feature", len(qn))]
     if kind == "scale":
-        X2[which] = X2[which] * [0.5, 4.0, 1024.0][ctx.choose("factor", 3)]
+        X2[which] = X2[which] * [0.5, 4.0, 1024.0, 2.0**-40, 2.0**40][ctx.choose("factor", 5)]  # powers of two: the rescaling itself is exact
     elif kind == "negate":
         X2[which] = -X2[which]
     elif kind == "rename":
@@ -545,7 +545,7 @@ def obligations_c15(tier):
                    bounds=f"m <= {3 if quick else 4} features, n_best in {{1, m}}, any subset negated, any correlations in [-1,1], thresh_corr=0.9", twin_every=3, budget_s=5.0),
         Obligation(name="O15.2 both selectors on real data with the real statistics: a solver-chosen re-encoding (positive rescaling, negation for rank-based measures, category renaming, row permutation, column rotation) leaves the selection unchanged",
                    harness=h_metamorphic, jobs=meta, encodes=["ClassificationSelector", "RegressionSelector", "kruskal_measure", "tschuprowt_measure", "spearman_filter", "tschuprowt_filter"],
-                   bounds="80-row samples from 2-4 seeds; 5 quantitative (one correlated pair) and 3 qualitative features; transformation, feature and factor solver-chosen", twin=False, budget_s=8.0),
+                   bounds="80-row samples from 2-4 seeds; 5 quantitative (one correlated pair) and 3 qualitative features; transformation, feature and factor (2^-40 .. 2^40) solver-chosen", twin=False, budget_s=8.0),
     ]
 
 
